@@ -605,6 +605,16 @@ func (e *Exec) stringLib(s *State, full string, args []Value) (Value, bool) {
 		return strPredicate("str.prefixof", "uf_strPrefix", e.strLit("/"), a), true
 	case "path/filepath.ToSlash", "path/filepath.FromSlash":
 		return args[0], true
+	case "strings.Index":
+		a, b := args[0].(*Node), args[1].(*Node)
+		if nativeStrings {
+			return App("str.indexof", "Int", a, b, IntLit(0)), true
+		}
+		declStr()
+		TS.DeclFun("uf_strIndex", []string{"Str", "Str"}, "Int")
+		r := App("uf_strIndex", "Int", a, b)
+		s.assume(And(App("<=", "Bool", IntLit(-1), r), App("<", "Bool", r, Ite(App(">", "Bool", e.strLen(a), IntLit(0)), e.strLen(a), IntLit(1)))))
+		return r, true
 	}
 	return nil, false
 }
